@@ -1,13 +1,13 @@
 CONSTANTS
   Publishers = {"A", "B"}
-  Readers = {}
+  Readers = {"r"}
   RemoteReaders = {}
   Keys <- KeysSeq
-  HasCache = FALSE
+  HasCache = TRUE
   MaxFaults = 0
-  InitEpochs = 0
+  InitEpochs = 2
   ReaderLag = 0
-  RecheckEpochAfterBegin = FALSE
+  RecheckEpochAfterBegin = TRUE
   FlagHeldThroughDbWrite = TRUE
   RootHashBeforeCommit = TRUE
   PrevEpochChecked = TRUE
@@ -16,5 +16,5 @@ CONSTANTS
 VIEW View
 INIT MCInit
 NEXT MCNext
-INVARIANTS EpochsDistinct ReturnedPairsStayPublished FinalEqualsSerial NoTxnLeftOpen
+INVARIANTS AnswersArePublished EpochsDistinct FinalEqualsSerial
 CHECK_DEADLOCK FALSE
